@@ -98,7 +98,7 @@ theorem bookkeeping_returns_to_idle {s : Streams} (h : Reach s) (hp : s.panicked
     s.counts.numLocalResetStreams = s.recv.pendingResetExpired.length ∧
     (s.store.slab = [] → s.counts.numSendStreams = 0 ∧ s.counts.numRecvStreams = 0) ∧
     (s.store.slab.map (·.key)).Nodup ∧ (∀ x ∈ s.store.slab, x.key < s.store.nextKey) := by
-  have hi := h.inv.2 hp
+  have hi := (h.inv.2.2 hp).1
   refine ⟨hi.reset, ?_, h.inv.1.nodup, h.inv.1.fresh⟩
   intro he
   have := hi.sum
